@@ -32,4 +32,17 @@ PROPS = {
         explanation="theorems over all colours, all channel triples, all multiplicands and all non-zero divisors (uint8/uint16 ranges as hypotheses)",
         assumptions=["divisor = 0 panics in Go and is excluded exactly as the property excludes it (the Lean model totalises x/0 = 0; the theorems keep the guard 0 < d explicit)"],
     ),
+    "C13": dict(
+        gens=[],
+        lean_targets=["SnesVerif.Props.C13"],
+        audit=["SnesVerif.Props.C13", "SnesVerif.Bus.Lemmas"],
+        vh=[("bus", [])],
+        search=[("bus", [])],
+        tie="hand-written model lean/SnesVerif/Bus/Model.lean; correspondence: vh bus runs random Attach/read/write/dump histories on the real "
+            "bus.Bus (address-logging memories), on the compiled Lean model and on a Go oracle of the property, and compares every result",
+        explanation="C13.routing_follows_attach (any Attach history, by induction), attach_alignment, attach_route (outside a range unaffected), "
+                    "eaDump_pointwise (count and pointwise equality with single reads for any alignment, holes untouched), out_of_space",
+        assumptions=["ranges and addresses inside the 24-bit space (a Go Attach/EaDump with end >= 2^24 panics while indexing the table; excluded by hypothesis)",
+                     "memories are identified by a number; a memory is handed the full bus address (the model returns (memory, address))"],
+    ),
 }
